@@ -291,7 +291,10 @@ Definition vals_max (l : list Fl) : Fl := fold_left (fun m v => if flt m v then 
 Inductive rop := RAdd (t : N) (v : Fl) | RSnap (t : N).
 Inductive rout :=
 | OAdd (count : N)
-| OSnap (count : N) (sum : Fl) (scount : N) (smin smax : Fl) (qs : list Fl).
+| OSnap (count : N) (sum : Fl) (scount : N) (smin smax : Fl) (qs : list Fl)
+(* observations made through the exporter (Inner::render), which shows less than the direct API: *)
+| OAck                                            (* a sample was recorded; nothing is observable until the next render *)
+| ORen (count : N) (sum : Fl) (qs : list Fl).     (* the rendered _count, _sum and quantile lines of the summary *)
 
 Definition rstep (r : rsum) (o : rop) : rsum * rout :=
   match o with
